@@ -444,6 +444,7 @@ def check_kernel_core(check, an: Analysis, rule: str = 'kernel', skip=()):
     if 'schedule' not in skip:
         c01.check_schedule_keys(check, an, rule)
         c01._check_optional_dates(check, an, rule)
+        c03.check_activation_flags(check, an, rule)
     if 'loop' not in skip:
         c15.check_loop_never_kept(check, an, rule)
     if 'waitq' not in skip:
